@@ -139,7 +139,11 @@ def run(ctx):
     gc.apply_records(ctx, {'R24.a': ra}, res)
     for p, r in res:
         loc = gc.ploc(p)
-        if p.expect_fail:
+        if p.expect_fail == 'ptgpp':
+            rb.expect(p.rc is not None and p.rc > 0, 'reject-by-compiler:%s:%s' % (p.name, p.dep), loc,
+                      'program %s must be refused by parsec-ptgpp itself, but it exits %s%s' % (p.name, p.rc, ' and emits C that does not pass the front end' if p.rc in (-2, -3) else ''),
+                      note='%s refused by parsec-ptgpp (exit %s)' % (p.label(), p.rc))
+        elif p.expect_fail:
             rb.expect(p.rc not in (0, None), 'reject:%s' % p.name, loc, 'over-limit program %s is accepted: ptgpp exits 0 and the emitted C passes the front end' % p.name,
                       note='%s rejected by %s' % (p.name, 'the emitted #error guard' if p.rc == -2 else 'parsec-ptgpp (exit %s)' % p.rc))
         elif p.rc == -3:
